@@ -38,7 +38,7 @@ def run(chk, replay=None):
     if "shape" in s:
         s["shape"] = s["shape"][:60]
     chk.sample(s)
-    ok, matched, res = chk.validate("Trace_C05", trace, need_actions=("Case",), timeout=1200)
+    ok, matched, res = chk.validate("Trace_C05", trace, need_actions=("Case", "Params"), timeout=1200)
     if not ok:
         bad = dict(rows[matched]) if matched < len(rows) else {}
         if "shape" in bad:
@@ -55,7 +55,7 @@ def run(chk, replay=None):
     if thorough and ok and not replay:
         import copy
         bad = copy.deepcopy(rows)
-        i = next(k for k, e in enumerate(bad) if e["nres"] == 1 and e["names"])
+        i = next(k for k, e in enumerate(bad) if e.get("nres") == 1 and e["names"])
         bad[i]["shape"].insert(12, 0)
         bad[i + 1]["equal"] = 0
         p = chk.path("selftest.ndjson")
